@@ -104,8 +104,12 @@ func (r *Runner) worker(id int, e *Exec) {
 		case res.Abort != nil:
 			st.Aborted++
 			st.Aborts[res.Abort.kind]++
-			if st.AbortSample == "" {
-				st.AbortSample = res.Abort.Error() + " [decisions " + decisionString(res.Decisions) + "]"
+			if st.Aborts[res.Abort.kind] == 1 {
+				// one sample per kind of abort
+				if st.AbortSample != "" {
+					st.AbortSample += "; "
+				}
+				st.AbortSample += res.Abort.Error() + " [decisions " + decisionString(res.Decisions) + "]"
 			}
 			outcome = "abort:" + res.Abort.kind
 		case res.Killed:
